@@ -199,10 +199,10 @@ class FilReader(Filterbank):
             data = np.frombuffer(read_buffer, dtype=self.bitsinfo.dtype)
 
         self._file.seek(start * self.samp_stride)
-        nreads, lastread = divmod(nsamps, (gulp - skipback))
-        if lastread < skipback:
-            nreads -= 1
-            lastread = nsamps - (nreads * (gulp - skipback))
+        # Every full read delivers (gulp - skipback) new samples after the overlap
+        nreads, lastread = divmod(nsamps - skipback, (gulp - skipback))
+        if lastread != 0:
+            lastread += skipback
         blocks = [
             (ii, gulp * self.header.nchans, -skipback * self.header.nchans)
             for ii in range(nreads)
